@@ -20,39 +20,46 @@ CONSTANTS MaxC,          \* connection ids 1..MaxC
           AtomicReg,     \* TRUE: keep-check .. register is one critical section (what a repair would do)
           FixIntent,     \* TRUE: an outbound connection is registered only if the peer is still paired / queued at that moment,
                          \*       and Unregister reads the registry under the same lock (repair 2 of C10)
+          FixCancel,     \* TRUE: CancelPairingWithSKI ends a connection whose handshake is past the hello phase (repair); FALSE:
+                         \*       such a connection goes on and completes although the pairing was cancelled
           FixShut,       \* TRUE: registration checks the shutdown flag and Shutdown collects the connections under the
                          \*       registration lock (repair 3 of C10); FALSE: a connection being set up survives Shutdown
           Rich,          \* TRUE: Unregister / Disappear / Restart / Shutdown are environment actions as well
+          Rich2,         \* TRUE: CancelPairingWithSKI and SetAutoAccept are environment actions as well
+          Warm,          \* TRUE: the scenario starts with both users registered and both hubs in sight of each other (the
+                         \*       environment steps that follow are disturbances of a pair that connects)
+          IdWrong,       \* hubs whose application stored a WRONG SHIP id for the peer (C09): no handshake with them completes
           EmitMode, SimDepth
 Hubs == {"A", "B"}       \* SKI order: "A" > "B"
 Other(h) == IF h = "A" THEN "B" ELSE "A"
 Higher(h) == h = "A"
 Conns == 1..MaxC
 
-VARIABLES trusted, visible, reg, cnt, running, dials, reports, conn, nextId, disturb, shut, intent, script
-svars == <<trusted, visible, reg, cnt, running, dials, reports, conn, nextId, disturb, shut, intent>>
+VARIABLES trusted, visible, reg, cnt, running, dials, reports, conn, nextId, disturb, shut, intent, auto, ureg, script
+svars == <<trusted, visible, reg, cnt, running, dials, reports, conn, nextId, disturb, shut, intent, auto, ureg>>
 vars == <<svars, script>>
 
 \* conn[c] = [cl, sv, cpc, spc, alive, done]
 NoConn == [cl |-> "A", sv |-> "B", cpc |-> "none", spc |-> "none", alive |-> FALSE, done |-> FALSE]
 
-Init == /\ trusted = [h \in Hubs |-> FALSE] /\ visible = [h \in Hubs |-> FALSE]
+Init == /\ trusted = [h \in Hubs |-> Warm] /\ visible = [h \in Hubs |-> Warm]
         /\ reg = [h \in Hubs |-> 0] /\ cnt = [h \in Hubs |-> 3]      \* 3 = no counter
         /\ running = [h \in Hubs |-> FALSE] /\ dials = [h \in Hubs |-> {}]
-        /\ reports = [h \in Hubs |-> 0]
-        /\ conn = [c \in Conns |-> NoConn] /\ nextId = 1 /\ disturb = 0 /\ shut = [h \in Hubs |-> FALSE] /\ intent = [h \in Hubs |-> FALSE] /\ script = <<>>
+        /\ reports = [h \in Hubs |-> IF Warm THEN 1 ELSE 0]
+        /\ conn = [c \in Conns |-> NoConn] /\ nextId = 1 /\ disturb = 0 /\ shut = [h \in Hubs |-> FALSE] /\ intent = [h \in Hubs |-> Warm] /\ auto = [h \in Hubs |-> FALSE] /\ ureg = [h \in Hubs |-> Warm] /\ script = <<>>
 
 LiveConns(h) == Cardinality({c \in Conns : reg[h] = c})
 \* checkAutoReannounce: #trusted > #connections -> RequestMdnsEntries -> one more report goroutine
 Reannounce(h, regNew) == IF trusted[h] /\ regNew = 0 /\ visible[h] THEN 1 ELSE 0
 
 \* ------------------------------------------------------------------ user / environment
-Register(h) == /\ ~intent[h] /\ ~shut[h] /\ trusted' = [trusted EXCEPT ![h] = TRUE] /\ intent' = [intent EXCEPT ![h] = TRUE]
+Register(h) == /\ ~ureg[h] /\ ~shut[h] /\ trusted' = [trusted EXCEPT ![h] = TRUE] /\ intent' = [intent EXCEPT ![h] = TRUE]
+               /\ ureg' = [ureg EXCEPT ![h] = TRUE]
                /\ reports' = [reports EXCEPT ![h] = IF visible[h] /\ reg[h] = 0 THEN @ + 1 ELSE @]
-               /\ UNCHANGED <<visible, reg, cnt, running, dials, conn, nextId, disturb, shut>>
+               /\ UNCHANGED <<visible, reg, cnt, running, dials, conn, nextId, disturb, shut, auto>>
 Appear(h) == /\ ~visible[h] /\ ~shut[h] /\ ~shut[Other(h)] /\ visible' = [visible EXCEPT ![h] = TRUE]
              /\ reports' = [reports EXCEPT ![h] = @ + 1]
-             /\ UNCHANGED <<trusted, reg, cnt, running, dials, conn, nextId, disturb, shut, intent>>
+             /\ UNCHANGED <<trusted, reg, cnt, running, dials, conn, nextId, disturb, shut, intent, auto, ureg>>
 
 \* ------------------------------------------------------------------ mDNS report -> coordinate
 Report(h) == /\ reports[h] > 0 /\ reports' = [reports EXCEPT ![h] = @ - 1]
@@ -61,7 +68,7 @@ Report(h) == /\ reports[h] > 0 /\ reports' = [reports EXCEPT ![h] = @ - 1]
                 ELSE LET k == IF cnt[h] = 3 THEN 0 ELSE IF cnt[h] >= 2 THEN 2 ELSE cnt[h] + 1
                      IN  /\ cnt' = [cnt EXCEPT ![h] = k] /\ running' = [running EXCEPT ![h] = TRUE]
                          /\ dials' = [dials EXCEPT ![h] = @ \cup {k}]
-             /\ UNCHANGED <<trusted, visible, reg, conn, nextId, disturb, shut, intent>>
+             /\ UNCHANGED <<trusted, visible, reg, conn, nextId, disturb, shut, intent, auto, ureg>>
 
 \* prepareConnectionInitation after the delay, up to and including the dial
 Prepare(h, k) ==
@@ -76,7 +83,7 @@ Prepare(h, k) ==
                                                   alive |-> TRUE, done |-> FALSE]]
             /\ nextId' = nextId + 1 /\ UNCHANGED reports
             /\ running' = IF FixStale THEN running ELSE [running EXCEPT ![h] = FALSE]     \* held until the attempt is over
-    /\ UNCHANGED <<trusted, visible, reg, cnt, disturb, shut, intent>>
+    /\ UNCHANGED <<trusted, visible, reg, cnt, disturb, shut, intent, auto, ureg>>
 
 \* ------------------------------------------------------------------ closing one side of a connection
 \* HandleConnectionClosed(h, c): registry removal only for the registered object; counter reset if completed
@@ -110,7 +117,7 @@ OKeep(c) ==
                      /\ reports' = [reports EXCEPT ![h] = @ + Reannounce(h, eff.reg)]
             ELSE /\ conn' = [conn EXCEPT ![c].cpc = "closed", ![c].alive = FALSE]
                  /\ UNCHANGED <<reg, cnt, reports>>
-    /\ UNCHANGED <<trusted, visible, running, dials, nextId, disturb, shut, intent>>
+    /\ UNCHANGED <<trusted, visible, running, dials, nextId, disturb, shut, intent, auto, ureg>>
 
 \* Run(): if the transport is already dead the connection ends in error right here
 \* (HandleConnectionClosed for an unregistered object), and is registered afterwards all the same
@@ -120,7 +127,7 @@ ORunReg(c) ==
        /\ conn' = [conn EXCEPT ![c].cpc = IF conn[c].alive THEN "reg" ELSE "regDead"]
        /\ reg' = [reg EXCEPT ![h] = c]
        /\ reports' = [reports EXCEPT ![h] = @ + (IF conn[c].alive THEN 0 ELSE Reannounce(h, reg[h]))]
-    /\ UNCHANGED <<trusted, visible, cnt, running, dials, nextId, disturb, shut, intent>>
+    /\ UNCHANGED <<trusted, visible, cnt, running, dials, nextId, disturb, shut, intent, auto, ureg>>
 
 \* atomic variant: keep-check, Run and register in one step
 OAtomic(c) ==
@@ -138,7 +145,7 @@ OAtomic(c) ==
             IN  /\ conn' = [CloseExisting(h, conn) EXCEPT ![c].cpc = "reg"]
                 /\ reg' = [reg EXCEPT ![h] = c] /\ cnt' = [cnt EXCEPT ![h] = eff.cnt] /\ UNCHANGED reports
     /\ running' = [running EXCEPT ![conn[c].cl] = FALSE]          \* the attempt of the dialling hub is over
-    /\ UNCHANGED <<trusted, visible, dials, nextId, disturb, shut, intent>>
+    /\ UNCHANGED <<trusted, visible, dials, nextId, disturb, shut, intent, auto, ureg>>
 
 \* ------------------------------------------------------------------ inbound side
 SKeep(c) ==
@@ -154,7 +161,7 @@ SKeep(c) ==
                      /\ reports' = [reports EXCEPT ![h] = @ + Reannounce(h, eff.reg)]
             ELSE /\ conn' = [conn EXCEPT ![c].spc = "closed", ![c].alive = FALSE]
                  /\ UNCHANGED <<reg, cnt, reports>>
-    /\ UNCHANGED <<trusted, visible, running, dials, nextId, disturb, shut, intent>>
+    /\ UNCHANGED <<trusted, visible, running, dials, nextId, disturb, shut, intent, auto, ureg>>
 
 SRunReg(c) ==
     /\ conn[c].spc = "kept"
@@ -162,7 +169,7 @@ SRunReg(c) ==
        /\ conn' = [conn EXCEPT ![c].spc = IF conn[c].alive THEN "reg" ELSE "regDead"]
        /\ reg' = [reg EXCEPT ![h] = c]
        /\ reports' = [reports EXCEPT ![h] = @ + (IF conn[c].alive THEN 0 ELSE Reannounce(h, reg[h]))]
-    /\ UNCHANGED <<trusted, visible, cnt, running, dials, nextId, disturb, shut, intent>>
+    /\ UNCHANGED <<trusted, visible, cnt, running, dials, nextId, disturb, shut, intent, auto, ureg>>
 
 SAtomic(c) ==
     /\ conn[c].spc = "accepted"
@@ -176,15 +183,19 @@ SAtomic(c) ==
                 eff == IF e = 0 THEN [reg |-> 0, cnt |-> cnt[h]] ELSE ClosedEffect(h, e, conn[e].done, reg[h], cnt[h])
             IN  /\ conn' = [CloseExisting(h, conn) EXCEPT ![c].spc = "reg"]
                 /\ reg' = [reg EXCEPT ![h] = c] /\ cnt' = [cnt EXCEPT ![h] = eff.cnt] /\ UNCHANGED reports
-    /\ UNCHANGED <<trusted, visible, running, dials, nextId, disturb, shut, intent>>
+    /\ UNCHANGED <<trusted, visible, running, dials, nextId, disturb, shut, intent, auto, ureg>>
 
 \* ------------------------------------------------------------------ handshake, transport loss, disturbances
 \* the server side needs trust (C01); the client side trusts by role - it dialled - and reaching hello-ok sets the paired flag
-Complete(c) == /\ conn[c].alive /\ ~conn[c].done /\ trusted[conn[c].sv]
+\* auto accept: the server side goes to hello-ok without its user and hello-ok marks the peer as paired (that standing
+\* instruction is the user's word: intent).  A hub that stored a wrong SHIP id for the peer never completes (C09).
+Complete(c) == /\ conn[c].alive /\ ~conn[c].done /\ (trusted[conn[c].sv] \/ auto[conn[c].sv])
+               /\ conn[c].cl \notin IdWrong /\ conn[c].sv \notin IdWrong
                /\ conn[c].cpc \in {"kept", "reg"} /\ conn[c].spc \in {"kept", "reg"}
                /\ conn' = [conn EXCEPT ![c].done = TRUE]
-               /\ trusted' = [trusted EXCEPT ![conn[c].cl] = TRUE]
-               /\ UNCHANGED <<visible, reg, cnt, running, dials, reports, nextId, disturb, shut, intent>>
+               /\ trusted' = [trusted EXCEPT ![conn[c].cl] = TRUE, ![conn[c].sv] = TRUE]
+               /\ intent' = [intent EXCEPT ![conn[c].sv] = @ \/ auto[conn[c].sv]]
+               /\ UNCHANGED <<visible, reg, cnt, running, dials, reports, nextId, disturb, shut, auto, ureg>>
 
 \* a side that is past Run notices that the transport is gone: CloseConnection -> HandleConnectionClosed
 Notice(c, side) ==
@@ -197,7 +208,7 @@ Notice(c, side) ==
            /\ reg' = [reg EXCEPT ![h] = eff.reg] /\ cnt' = [cnt EXCEPT ![h] = eff.cnt]
            /\ reports' = [reports EXCEPT ![h] = @ + Reannounce(h, eff.reg)]
            /\ running' = RunAfter(h, conn[c].done)
-    /\ UNCHANGED <<trusted, visible, dials, nextId, disturb, shut, intent>>
+    /\ UNCHANGED <<trusted, visible, dials, nextId, disturb, shut, intent, auto, ureg>>
 
 \* the side that lost the keep decision before Run simply closed the socket: nothing to report
 Drop(c, side) ==
@@ -205,7 +216,7 @@ Drop(c, side) ==
     /\ IF side = "c" THEN conn[c].cpc = "dialed" /\ conn' = [conn EXCEPT ![c].cpc = "closed"]
                      ELSE conn[c].spc = "accepted" /\ conn' = [conn EXCEPT ![c].spc = "closed"]
     /\ FALSE   \* disabled: an unkept side still runs keep -> Run -> register in the code (that is race a)
-    /\ UNCHANGED <<trusted, visible, reg, cnt, running, dials, reports, nextId, disturb, shut, intent>>
+    /\ UNCHANGED <<trusted, visible, reg, cnt, running, dials, reports, nextId, disturb, shut, intent, auto, ureg>>
 
 Disconnect(h) == /\ disturb < MaxDisturb /\ reg[h] # 0 /\ conn[reg[h]].done /\ conn[reg[h]].alive
                  /\ LET c == reg[h]
@@ -214,31 +225,33 @@ Disconnect(h) == /\ disturb < MaxDisturb /\ reg[h] # 0 /\ conn[reg[h]].done /\ c
                         /\ reg' = [reg EXCEPT ![h] = eff.reg] /\ cnt' = [cnt EXCEPT ![h] = eff.cnt]
                         /\ reports' = [reports EXCEPT ![h] = @ + Reannounce(h, eff.reg)]
                  /\ disturb' = disturb + 1 /\ running' = RunAfter(h, TRUE)
-                 /\ UNCHANGED <<trusted, visible, dials, nextId, shut, intent>>
+                 /\ UNCHANGED <<trusted, visible, dials, nextId, shut, intent, auto, ureg>>
 
 Cut(c) == /\ disturb < MaxDisturb /\ conn[c].alive /\ conn' = [conn EXCEPT ![c].alive = FALSE]
           /\ disturb' = disturb + 1
-          /\ UNCHANGED <<trusted, visible, reg, cnt, running, dials, reports, nextId, shut, intent>>
+          /\ UNCHANGED <<trusted, visible, reg, cnt, running, dials, reports, nextId, shut, intent, auto, ureg>>
 
 \* ------------------------------------------------------------------ richer environment (Rich)
 \* a handshake that cannot complete (one side does not trust) may end at any time: abort, denial, timers
-Expire(c) == /\ Rich /\ conn[c].alive /\ ~conn[c].done /\ ~trusted[conn[c].sv]
+Expire(c) == /\ (Rich \/ Rich2 \/ IdWrong # {}) /\ conn[c].alive /\ ~conn[c].done
+             /\ (~trusted[conn[c].sv] \/ conn[c].cl \in IdWrong \/ conn[c].sv \in IdWrong)
              /\ conn[c].cpc \in {"kept", "reg"} /\ conn[c].spc \in {"kept", "reg"}
              /\ conn' = [conn EXCEPT ![c].alive = FALSE]
-             /\ UNCHANGED <<trusted, visible, reg, cnt, running, dials, reports, nextId, disturb, shut, intent>>
+             /\ UNCHANGED <<trusted, visible, reg, cnt, running, dials, reports, nextId, disturb, shut, intent, auto, ureg>>
 \* UnregisterRemoteSKI: trust and attempt counter gone, the registered connection closed
 Unregister(h) == /\ Rich /\ disturb < MaxDisturb /\ intent[h] /\ ~shut[h]
                  /\ trusted' = [trusted EXCEPT ![h] = FALSE] /\ intent' = [intent EXCEPT ![h] = FALSE]
+                 /\ ureg' = [ureg EXCEPT ![h] = FALSE]
                  /\ LET c == reg[h] IN
                     IF c = 0 THEN cnt' = [cnt EXCEPT ![h] = 3] /\ UNCHANGED <<conn, reg>>
                     ELSE /\ conn' = [CloseExisting(h, conn) EXCEPT ![c].alive = FALSE]
                          /\ reg' = [reg EXCEPT ![h] = 0] /\ cnt' = [cnt EXCEPT ![h] = 3]
                  /\ disturb' = disturb + 1
-                 /\ UNCHANGED <<visible, running, dials, reports, nextId, shut>>
+                 /\ UNCHANGED <<visible, running, dials, reports, nextId, shut, auto>>
 \* h loses sight of its peer on mDNS (no report leads to a dial any more)
 Disappear(h) == /\ Rich /\ disturb < MaxDisturb /\ visible[h] /\ visible' = [visible EXCEPT ![h] = FALSE]
                 /\ disturb' = disturb + 1
-                /\ UNCHANGED <<trusted, reg, cnt, running, dials, reports, conn, nextId, shut, intent>>
+                /\ UNCHANGED <<trusted, reg, cnt, running, dials, reports, conn, nextId, shut, intent, auto, ureg>>
 \* everything hub h holds is gone and its connections die
 Down(h, cs) == [c \in Conns |-> IF cs[c].cl = h \/ cs[c].sv = h
                                  THEN [cs[c] EXCEPT !.alive = FALSE,
@@ -254,8 +267,10 @@ Restart(h) == /\ Rich /\ disturb < MaxDisturb /\ ~shut[h]
               /\ reports' = [reports EXCEPT ![h] = IF visible[h] THEN 1 ELSE 0,
                                             ![Other(h)] = IF visible[Other(h)] THEN @ + 2 ELSE @]
               /\ disturb' = disturb + 1
-              /\ trusted' = [trusted EXCEPT ![h] = intent[h]]
-              /\ UNCHANGED <<visible, nextId, shut, intent>>
+              \* what the user registered is registered again; trust gained through auto accept is not (the application of the
+              \* scenario does not persist it)
+              /\ trusted' = [trusted EXCEPT ![h] = ureg[h]] /\ intent' = [intent EXCEPT ![h] = ureg[h]]
+              /\ UNCHANGED <<visible, nextId, shut, auto, ureg>>
 \* Shutdown: h stays down.  As is, Shutdown closes what is registered: a connection h is just setting up goes on
 ShutDownConns(h, cs) == [c \in Conns |-> IF ~FixShut /\ ((cs[c].cl = h /\ cs[c].cpc = "dialed") \/ (cs[c].sv = h /\ cs[c].spc = "accepted"))
                                           THEN cs[c] ELSE Down(h, cs)[c]]
@@ -266,23 +281,50 @@ Shutdown(h) == /\ Rich /\ disturb < MaxDisturb /\ ~shut[h]
                /\ reports' = [reports EXCEPT ![h] = 0, ![Other(h)] = IF visible[Other(h)] THEN @ + 1 ELSE @]
                /\ visible' = [visible EXCEPT ![Other(h)] = FALSE]
                /\ disturb' = disturb + 1
-               /\ UNCHANGED <<trusted, cnt, nextId, intent>>
+               /\ UNCHANGED <<trusted, cnt, nextId, intent, auto, ureg>>
+
+\* CancelPairingWithSKI: trust, the user's word and the attempt counter are gone; the registered connection is asked to
+\* abort its handshake - which only takes effect while it waits in its hello phase.  As is (FixCancel = FALSE) a connection
+\* in any other state goes on: it completes, or stays completed, although the pairing was cancelled.  The repair ends such
+\* a connection like UnregisterRemoteSKI does.
+Cancel(h) == /\ Rich2 /\ disturb < MaxDisturb /\ ureg[h] /\ ~shut[h]
+             /\ trusted' = [trusted EXCEPT ![h] = FALSE] /\ intent' = [intent EXCEPT ![h] = FALSE]
+             /\ ureg' = [ureg EXCEPT ![h] = FALSE]
+             /\ LET c == reg[h] IN
+                IF c = 0 THEN cnt' = [cnt EXCEPT ![h] = 3] /\ UNCHANGED <<conn, reg>>
+                ELSE \E inHello \in (IF conn[c].done THEN {FALSE} ELSE BOOLEAN) :
+                       IF FixCancel
+                       THEN /\ conn' = [CloseExisting(h, conn) EXCEPT ![c].alive = FALSE]
+                            /\ reg' = [reg EXCEPT ![h] = 0] /\ cnt' = [cnt EXCEPT ![h] = 3]
+                       ELSE /\ conn' = IF inHello THEN [conn EXCEPT ![c].alive = FALSE] ELSE conn
+                            /\ cnt' = [cnt EXCEPT ![h] = 3] /\ UNCHANGED reg
+             /\ disturb' = disturb + 1
+             /\ UNCHANGED <<visible, running, dials, reports, nextId, shut, auto>>
+\* SetAutoAccept: the flag, and a new announcement (register = true / false) which the peer's manager reports
+SetAuto(h, b) == /\ Rich2 /\ disturb < MaxDisturb /\ ~shut[h] /\ auto[h] # b
+                 /\ auto' = [auto EXCEPT ![h] = b]
+                 /\ reports' = [reports EXCEPT ![Other(h)] = IF visible[Other(h)] THEN @ + 1 ELSE @]
+                 /\ disturb' = disturb + 1
+                 /\ UNCHANGED <<trusted, visible, reg, cnt, running, dials, conn, nextId, shut, intent, ureg>>
 
 Lib == \/ \E h \in Hubs : Report(h) \/ \E k \in 0..2 : Prepare(h, k)
        \/ \E c \in Conns : \/ (IF AtomicReg THEN OAtomic(c) \/ SAtomic(c) ELSE OKeep(c) \/ ORunReg(c) \/ SKeep(c) \/ SRunReg(c))
                            \/ Complete(c) \/ Notice(c, "c") \/ Notice(c, "s") \/ Expire(c)
 \* an environment step is logged together with whether the library had come to rest before it
 LibIdle == ~ENABLED Lib
-Log(op, h) == script' = IF EmitMode = "none" THEN script ELSE Append(script, [op |-> op, h |-> h, quiet |-> LibIdle])
+\* ... and with what the hub's registry held for the peer at that moment (the harness waits for the real hub to get there)
+RegState(h) == IF h \notin Hubs THEN "" ELSE IF reg[h] = 0 THEN "none" ELSE IF conn[reg[h]].done THEN "done" ELSE "setup"
+Log(op, h) == script' = IF EmitMode = "none" THEN script ELSE Append(script, [op |-> op, h |-> h, quiet |-> LibIdle, st |-> RegState(h)])
 Env == \/ \E h \in Hubs : (Register(h) /\ Log("Register", h)) \/ (Appear(h) /\ Log("Appear", h)) \/ (Disconnect(h) /\ Log("Disconnect", h))
                           \/ (Unregister(h) /\ Log("Unregister", h)) \/ (Disappear(h) /\ Log("Disappear", h))
                           \/ (Restart(h) /\ Log("Restart", h)) \/ (Shutdown(h) /\ Log("Shutdown", h))
+                          \/ (Cancel(h) /\ Log("Cancel", h)) \/ (SetAuto(h, TRUE) /\ Log("AutoOn", h)) \/ (SetAuto(h, FALSE) /\ Log("AutoOff", h))
        \/ \E c \in Conns : (Cut(c) /\ Log("Cut", ""))
 Next == (Lib /\ UNCHANGED script) \/ Env
 Spec == Init /\ [][Next]_vars /\ WF_vars(Lib)
 
 \* ------------------------------------------------------------------ properties
-Stable == \A h \in Hubs : intent[h] /\ visible[h] /\ ~shut[h]
+Stable == IdWrong = {} /\ \A h \in Hubs : intent[h] /\ visible[h] /\ ~shut[h]
 Quiet  == /\ \A h \in Hubs : reports[h] = 0 /\ dials[h] = {}
           /\ ~ENABLED Lib
 Emit == EmitMode = "none" \/ script' = script \/ PrintT(<<"TEST", ToJson(script')>>)
@@ -297,6 +339,8 @@ NoOrphan == \A c \in Conns : (Quiet /\ conn[c].alive /\ conn[c].cpc = "reg" /\ c
 \* C10 on two hubs: no completed connection while either side does not trust; nothing alive at a hub that was shut down
 P_C10_trust == /\ \A h \in Hubs : trusted[h] => intent[h]
                /\ \A c \in Conns : (Quiet /\ Good(c)) => (intent[conn[c].cl] /\ intent[conn[c].sv])
+\* C09 on two hubs: with a wrong stored SHIP id on either side no connection is ever completed
+P_C09_pin == IdWrong # {} => \A c \in Conns : ~conn[c].done
 P_C10_shut  == \A c \in Conns : conn[c].alive => (~shut[conn[c].cl] /\ ~shut[conn[c].sv])
 KF_a == \E c \in Conns : conn[c].cpc = "regDead" \/ conn[c].spc = "regDead"
 P_C05_modA == ~KF_a => P_C05
